@@ -1,4 +1,5 @@
 import MpVerif.C03.LemmasMain
+import MpVerif.C03.LemmasNum
 /-!
 # C03 — NL writer output is read back as the same model (text = binary)
 
@@ -60,6 +61,45 @@ theorem C03_header_roundtrip (cd : Codec) (o : Opts) (h : Hdr) (rest : List Tok)
 theorem C03_roundtrip (cd : Codec) (m : Model) (o : Opts) (hwf : wellFormed m o = true) :
     readTokens cd (writeNL m o) = .ok (events cd m o) :=
   roundtrip cd m o hwf
+
+/-! ## numbers -/
+
+/-- `BinaryFormatter::nput` chooses `s` + int16 for integers in [-32768, 32767], `l` + int32 for the other integers in
+    [-2^31, 2^31-1], and `n` + the 8 bytes otherwise (`toInt?` = "x is finite and integer valued") -/
+theorem C03_nput_packing (x : Dbl) (o : Opts) (hb : o.binary = true) :
+    (∀ v, x.toInt? = some v → -32768 ≤ v → v ≤ 32767 → wNum o x = [.ch .exS, .sh v, .eol]) ∧
+    (∀ v, x.toInt? = some v → -2147483648 ≤ v → v ≤ 2147483647 → ¬ (-32768 ≤ v ∧ v ≤ 32767) → wNum o x = [.ch .exL, .lg v, .eol]) ∧
+    (∀ v, x.toInt? = some v → ¬ (-2147483648 ≤ v ∧ v ≤ 2147483647) → wNum o x = [.ch .exN, .dbl x, .eol]) ∧
+    (x.toInt? = none → wNum o x = [.ch .exN, .dbl x, .eol]) := by
+  refine ⟨?_, ?_, ?_, ?_⟩
+  · intro v h h1 h2
+    have : -2147483648 ≤ v ∧ v ≤ 2147483647 := by omega
+    simp [wNum, hb, h, this, h1, h2]
+  · intro v h h1 h2 h3
+    simp [wNum, hb, h, h1, h2, h3]
+  · intro v h h1
+    simp [wNum, hb, h, h1]
+  · intro h
+    simp [wNum, hb, h]
+
+/-- **`nput` is exact** (a theorem over all doubles, hence all integers): what `ReadConstant` returns for what the binary
+    `nput` wrote is the double itself up to the sign of zero — `(double)(short)v`, `(double)(int)v` rebuild the bit pattern
+    of every integer-valued double that passed the `(long)x == x` test -/
+theorem C03_nput_exact (x : Dbl) (hx : x.Valid) (o : Opts) (hb : o.binary = true) :
+    (numVal idCodec o x).normZero = x.normZero :=
+  numVal_binary_exact x hx o hb
+
+/-- `(double)v` of the integer value `v` of a double is that double: the conversion lemma behind `C03_nput_exact` -/
+theorem C03_int_double_exact (x : Dbl) (hx : x.Valid) (v : Int) (h : x.toInt? = some v) :
+    (Dbl.ofInt v).normZero = x.normZero :=
+  ofInt_toInt x hx v h
+
+/-- one number, text vs binary: under the (tested, not proved) hypothesis that `strtod (g_fmt x)` is `x` up to the sign of
+    zero, the value reported for a constant written in text equals the one reported for binary, up to the sign of zero -/
+theorem C03_number_text_eq_binary (cd : Codec) (hcd : ∀ x, (cd.rd x).normZero = x.normZero) (x : Dbl) (hx : x.Valid)
+    (ot ob : Opts) (ht : ot.binary = false) (hb : ob.binary = true) :
+    (numVal cd ot x).normZero = (numVal idCodec ob x).normZero := by
+  rw [numVal_text_exact cd hcd x ot ht, numVal_binary_exact x hx ob hb]
 
 /-! ## where `events` is not "as fed": partial theorems and counterexamples -/
 
